@@ -219,37 +219,68 @@ class Ctx:
             s.add(c)
         return s
 
+    def _inc_solver(self):
+        """incremental solver holding side + pc (both append-only); obligations are pushed/popped on top of it"""
+        st = getattr(self, "_inc", None)
+        if st is None:
+            s = z3.Solver()
+            s.set("timeout", self.timeout_ms)
+            st = self._inc = [s, 0, 0]
+        s = st[0]
+        for c in self.side[st[1]:]:
+            s.add(c)
+        st[1] = len(self.side)
+        for c in self.pc[st[2]:]:
+            s.add(c)
+        st[2] = len(self.pc)
+        return s
+
     def _check(self, extra, want_model=False):
         t0 = time.time()
-        s = self._solver()
-        s.add(extra)
         self.n_solver_calls += 1
-        r = s.check()
+        s = self._inc_solver()
+        s.push()
+        try:
+            s.add(extra)
+            # atoms created while converting `extra` may have appended side constraints after the push: they are part of this query too
+            n_side = self._inc[1]
+            for c in self.side[n_side:]:
+                s.add(c)
+            r = s.check()
+            model = s.model() if r == z3.sat else None
+        finally:
+            s.pop()
+        fresh = None
+        if r == z3.unknown or (r == z3.sat and want_model):
+            # the incremental core gave up (or a generic model is wanted): one-shot solver with the full tactic pipeline
+            fresh = self._solver()
+            fresh.add(extra)
+            if r == z3.unknown:
+                r = fresh.check()
+                model = fresh.model() if r == z3.sat else None
         backend = "z3"
-        model = None
-        if r == z3.sat:
-            model = s.model()
-            if want_model:
-                # prefer a generic counterexample (inputs non-zero and pairwise distinct): replays are more telling
-                s.push()
-                zs = []
-                for p in self.inputs.values():
-                    if isinstance(p, Poly):
-                        try:
-                            zs.append(p.to_z3())
-                        except Exception:
-                            pass
-                for z in zs:
-                    s.add(z != 0)
-                if len(zs) > 1:
-                    s.add(z3.Distinct(*[z3.ToReal(z) if z3.is_int(z) else z for z in zs]))
-                s.set("timeout", min(self.timeout_ms, 3000))
-                if s.check() == z3.sat:
-                    model = s.model()
-                s.pop()
+        if r == z3.sat and want_model:
+            s2 = fresh
+            # prefer a generic counterexample (inputs non-zero and pairwise distinct): replays are more telling
+            s2.push()
+            zs = []
+            for p in self.inputs.values():
+                if isinstance(p, Poly):
+                    try:
+                        zs.append(p.to_z3())
+                    except Exception:
+                        pass
+            for z in zs:
+                s2.add(z != 0)
+            if len(zs) > 1:
+                s2.add(z3.Distinct(*[z3.ToReal(z) if z3.is_int(z) else z for z in zs]))
+            s2.set("timeout", min(self.timeout_ms, 3000))
+            if s2.check() == z3.sat:
+                model = s2.model()
+            s2.pop()
         res = str(r)
         if r == z3.unknown and self.use_cvc5:
-            res2 = _cvc5_check(s, self.timeout_ms)
+            res2 = _cvc5_check(fresh, self.timeout_ms)
             if res2 in ("sat", "unsat"):
                 res, backend = res2, "cvc5"
         dt = time.time() - t0
